@@ -465,85 +465,82 @@ func c40Selection(r *vk.Run, h *scripted.Harness) {
 
 // ---------------------------------------------------------------- lists
 
+// c40Scenario builds endpoint contents (below the directory prefix, "" = the
+// root itself) whose conflicts and scan problems are known by construction.
+type c40Scenario struct {
+	Alpha, Beta             *core.Entry
+	Conflicts, AScan, BScan []string
+}
+
+func c40MakeScenario(rng *rand.Rand, prefix string, want int) c40Scenario {
+	// Distinct leaf paths, none a prefix of another.
+	leaves := map[string]string{}
+	for tries := 0; len(leaves) < want && tries < 600; tries++ {
+		p := randomPath(rng, 3)
+		if p == "" {
+			continue
+		}
+		clash := false
+		for q := range leaves {
+			if q == p || strings.HasPrefix(q, p+"/") || strings.HasPrefix(p, q+"/") {
+				clash = true
+				break
+			}
+		}
+		if clash {
+			continue
+		}
+		leaves[p] = []string{"conflict", "conflict", "conflict", "alpha-problem", "alpha-problem", "beta-problem", "beta-problem", "alpha-only", "beta-only", "equal"}[rng.Intn(10)]
+	}
+	// Always something to transition on both sides (fresh names per scenario).
+	leaves["only-on-alpha"] = "alpha-only"
+	leaves["only-on-beta"] = "beta-only"
+	sc := c40Scenario{Alpha: gen.Dir(nil), Beta: gen.Dir(nil)}
+	put := func(root *core.Entry, p string, e *core.Entry) *core.Entry {
+		comps := strings.Split(p, "/")
+		for i := 1; i < len(comps); i++ {
+			dir := strings.Join(comps[:i], "/")
+			if gen.At(root, dir) == nil {
+				root, _ = gen.Set(root, dir, gen.Dir(nil))
+			}
+		}
+		root, _ = gen.Set(root, p, e)
+		return root
+	}
+	for p, role := range leaves {
+		if prefix != "" {
+			p = prefix + "/" + p
+		}
+		switch role {
+		case "conflict":
+			sc.Alpha, sc.Beta = put(sc.Alpha, p, gen.File(gen.D1, false)), put(sc.Beta, p, gen.File(gen.D2, false))
+			sc.Conflicts = append(sc.Conflicts, p)
+		case "alpha-problem":
+			sc.Alpha = put(sc.Alpha, p, gen.Problematic("scan problem at "+p))
+			sc.AScan = append(sc.AScan, p)
+		case "beta-problem":
+			sc.Beta = put(sc.Beta, p, gen.Problematic("scan problem at "+p))
+			sc.BScan = append(sc.BScan, p)
+		case "alpha-only":
+			sc.Alpha = put(sc.Alpha, p, gen.File(gen.D3, false))
+		case "beta-only":
+			sc.Beta = put(sc.Beta, p, gen.File(gen.D3, true))
+		case "equal":
+			sc.Alpha, sc.Beta = put(sc.Alpha, p, gen.File(gen.D1, true)), put(sc.Beta, p, gen.File(gen.D1, true))
+		}
+	}
+	return sc
+}
+
+// c40Lists: conflict / problem lists injected through scripted endpoints. One
+// session goes through several record-then-list rounds (a cycle records new
+// lists - longer than the maximum, then at or below it, ... - and the session
+// is listed twice after each): every listing has to describe the lists
+// recorded by the latest cycle.
 func c40Lists(r *vk.Run, h *scripted.Harness) {
 	rng := r.Rand("lists")
-	rounds := r.Pick(60, 1200)
+	rounds := r.Pick(50, 1000)
 	for round := 0; round < rounds; round++ {
-		// Distinct leaf paths, none a prefix of another.
-		leaves := map[string]string{}
-		want := rng.Intn(45)
-		if rng.Intn(5) == 0 {
-			want = 9 + rng.Intn(4) // around the truncation boundary
-		}
-		for tries := 0; len(leaves) < want && tries < 400; tries++ {
-			p := randomPath(rng, 3)
-			if p == "" {
-				continue
-			}
-			clash := false
-			for q := range leaves {
-				if q == p || strings.HasPrefix(q, p+"/") || strings.HasPrefix(p, q+"/") {
-					clash = true
-					break
-				}
-			}
-			if clash {
-				continue
-			}
-			leaves[p] = []string{"conflict", "conflict", "conflict", "alpha-problem", "alpha-problem", "beta-problem", "beta-problem", "alpha-only", "beta-only", "equal"}[rng.Intn(10)]
-		}
-		leaves["only-on-alpha"] = "alpha-only"
-		leaves["only-on-beta"] = "beta-only"
-		alpha, beta := gen.Dir(nil), gen.Dir(nil)
-		put := func(root *core.Entry, p string, e *core.Entry) *core.Entry {
-			comps := strings.Split(p, "/")
-			for i := 1; i < len(comps); i++ {
-				dir := strings.Join(comps[:i], "/")
-				if gen.At(root, dir) == nil {
-					root, _ = gen.Set(root, dir, gen.Dir(nil))
-				}
-			}
-			root, _ = gen.Set(root, p, e)
-			return root
-		}
-		var conflicts, aScan, bScan []string
-		for p, role := range leaves {
-			switch role {
-			case "conflict":
-				alpha, beta = put(alpha, p, gen.File(gen.D1, false)), put(beta, p, gen.File(gen.D2, false))
-				conflicts = append(conflicts, p)
-			case "alpha-problem":
-				alpha = put(alpha, p, gen.Problematic("scan problem at "+p))
-				aScan = append(aScan, p)
-			case "beta-problem":
-				beta = put(beta, p, gen.Problematic("scan problem at "+p))
-				bScan = append(bScan, p)
-			case "alpha-only":
-				alpha = put(alpha, p, gen.File(gen.D3, false))
-			case "beta-only":
-				beta = put(beta, p, gen.File(gen.D3, true))
-			case "equal":
-				alpha, beta = put(alpha, p, gen.File(gen.D1, true)), put(beta, p, gen.File(gen.D1, true))
-			}
-		}
-		randomProblems := func() []string {
-			set := map[string]bool{}
-			k := rng.Intn(26)
-			if rng.Intn(4) == 0 {
-				k = 9 + rng.Intn(4)
-			}
-			for len(set) < k {
-				set[randomPath(rng, 3)] = true
-			}
-			var out []string
-			for p := range set {
-				out = append(out, p)
-			}
-			return out
-		}
-		aTrans, bTrans := randomProblems(), randomProblems()
-		fmt.Printf("lists round %d: %d conflicts, scan problems %d/%d, transition problems %d/%d\n", round, len(conflicts), len(aScan), len(bScan), len(aTrans), len(bTrans))
-
 		ctx, cancel := withBound()
 		p, err := h.NewPair(ctx, scripted.PairOptions{Mode: core.SynchronizationMode_SynchronizationModeTwoWaySafe})
 		if err != nil {
@@ -551,98 +548,149 @@ func c40Lists(r *vk.Run, h *scripted.Harness) {
 			r.Inconclusive("pair-setup-failed")
 			continue
 		}
-		mk := func(paths []string) func([]*core.Change) []*core.Problem {
-			return func([]*core.Change) []*core.Problem {
-				var out []*core.Problem
-				for _, q := range paths {
-					out = append(out, &core.Problem{Path: q, Error: "transition problem at " + q})
+		steps := 3 + rng.Intn(2)
+		long := rng.Intn(2) == 0 // alternate lists above / not above the maximum
+		for step := 0; step < steps; step++ {
+			want := rng.Intn(9)
+			if long {
+				want = 18 + rng.Intn(28)
+			}
+			if rng.Intn(6) == 0 {
+				want = 9 + rng.Intn(4) // around the truncation boundary
+			}
+			long = !long
+			// Each step lives in its own top-level directory (except the first,
+			// which uses the root itself), so that the expected conflict set does
+			// not depend on what earlier steps left in the ancestor.
+			prefix := ""
+			if step > 0 {
+				prefix = fmt.Sprintf("r%d", step)
+			}
+			sc := c40MakeScenario(rng, prefix, want)
+			randomProblems := func() []string {
+				set := map[string]bool{}
+				k := rng.Intn(8)
+				if rng.Intn(2) == 0 {
+					k = 11 + rng.Intn(15)
+				}
+				if rng.Intn(5) == 0 {
+					k = 9 + rng.Intn(4)
+				}
+				for len(set) < k {
+					set[randomPath(rng, 3)] = true
+				}
+				var out []string
+				for q := range set {
+					out = append(out, q)
 				}
 				return out
 			}
-		}
-		p.A.SetProblems(mk(aTrans))
-		p.B.SetProblems(mk(bTrans))
-		evs, ok := p.Cycle(ctx, alpha, beta)
-		var st *synchronization.State
-		if ok {
-			st, err = p.State(ctx)
+			aTrans, bTrans := randomProblems(), randomProblems()
+			fmt.Printf("lists round %d step %d: %d conflicts, scan problems %d/%d, transition problems %d/%d\n", round, step, len(sc.Conflicts), len(sc.AScan), len(sc.BScan), len(aTrans), len(bTrans))
+			mk := func(paths []string) func([]*core.Change) []*core.Problem {
+				return func([]*core.Change) []*core.Problem {
+					var out []*core.Problem
+					for _, q := range paths {
+						out = append(out, &core.Problem{Path: q, Error: "transition problem at " + q})
+					}
+					return out
+				}
+			}
+			p.A.SetProblems(mk(aTrans))
+			p.B.SetProblems(mk(bTrans))
+			evs, ok := p.Cycle(ctx, sc.Alpha, sc.Beta)
+			if !ok {
+				r.Inconclusive("list-cycle-failed")
+				break
+			}
+			aT, bT := false, false
+			for _, e := range evs {
+				if e.Op == scripted.OpTransition && e.Err == "" {
+					if e.Alpha {
+						aT = true
+					} else {
+						bT = true
+					}
+				}
+			}
+			if !aT {
+				aTrans = nil
+			}
+			if !bT {
+				bTrans = nil
+			}
+			for listing := 0; listing < 2; listing++ {
+				st, err := p.State(ctx)
+				if err != nil {
+					r.Inconclusive("list-failed")
+					break
+				}
+				r.Eval(1)
+				judge := func(list string, all []string, listed []string, excluded uint64, max int) {
+					sorted := append([]string(nil), all...)
+					sort.Slice(sorted, func(i, j int) bool { return refLess(sorted[i], sorted[j]) })
+					wantListed, wantExcluded := sorted, 0
+					if len(sorted) > max {
+						wantListed, wantExcluded = sorted[:max], len(sorted)-max
+					}
+					w := map[string]any{"list": list, "all_sorted": sorted, "listed": listed, "excluded": excluded, "documented_maximum": max,
+						"record_then_list_step": step, "listing_after_that_cycle": listing + 1}
+					sig := func(check string) map[string]string {
+						m := map[string]string{"part": "lists", "list": list, "check": check}
+						if step > 0 || listing > 0 {
+							m["repeated_listing"] = "true"
+						}
+						return m
+					}
+					if len(listed)+int(excluded) != len(sorted) {
+						r.Violation(sig("count"), fmt.Sprintf("%s (step %d, listing %d): %d listed + %d excluded != %d entries recorded by the latest cycle", list, step, listing+1, len(listed), excluded, len(sorted)), w)
+					} else if len(listed) != len(wantListed) || int(excluded) != wantExcluded {
+						r.Violation(sig("truncation"), fmt.Sprintf("%s: %d listed / %d excluded, documented maximum %d wants %d / %d", list, len(listed), excluded, max, len(wantListed), wantExcluded), w)
+					} else if strings.Join(listed, "\x00") != strings.Join(wantListed, "\x00") {
+						inOrder := true
+						for i := 1; i < len(listed); i++ {
+							if !refLess(listed[i-1], listed[i]) {
+								inOrder = false
+							}
+						}
+						if !inOrder {
+							r.Violation(sig("order"), list+": not in depth-first path order", w)
+						} else {
+							r.Violation(sig("wrong-entries"), list+": the listed entries are not the first entries in depth-first order of the current list", w)
+						}
+					}
+					r.Distinct(fmt.Sprintf("list|%s|%d|%v|%d", list, len(listed), excluded > 0, step))
+					if excluded > 0 {
+						r.Count("truncated_lists", 1)
+					}
+					if step > 0 && wantExcluded == 0 {
+						r.Count("relisted_after_shrinking_to_the_maximum_or_below", 1)
+					}
+				}
+				var cPaths []string
+				for _, c := range st.Conflicts {
+					cPaths = append(cPaths, c.Root)
+				}
+				pp := func(ps []*core.Problem) []string {
+					var out []string
+					for _, q := range ps {
+						out = append(out, q.Path)
+					}
+					return out
+				}
+				judge("conflicts", sc.Conflicts, cPaths, st.ExcludedConflicts, maxListConflicts)
+				judge("alpha-scan-problems", sc.AScan, pp(st.AlphaState.ScanProblems), st.AlphaState.ExcludedScanProblems, maxListScanProblems)
+				judge("beta-scan-problems", sc.BScan, pp(st.BetaState.ScanProblems), st.BetaState.ExcludedScanProblems, maxListScanProblems)
+				judge("alpha-transition-problems", aTrans, pp(st.AlphaState.TransitionProblems), st.AlphaState.ExcludedTransitionProblems, maxListTransitionProblems)
+				judge("beta-transition-problems", bTrans, pp(st.BetaState.TransitionProblems), st.BetaState.ExcludedTransitionProblems, maxListTransitionProblems)
+				if round < 2 && step == 0 && listing == 0 {
+					r.Sample(map[string]any{"conflicts_listed": cPaths, "excluded_conflicts": st.ExcludedConflicts, "conflicts_total": len(sc.Conflicts)})
+				}
+			}
+			r.Count("record_then_list_steps", 1)
 		}
 		p.Close(context.Background())
 		cancel()
-		if !ok || err != nil {
-			r.Inconclusive("list-cycle-failed")
-			continue
-		}
-		aT, bT := false, false
-		for _, e := range evs {
-			if e.Op == scripted.OpTransition && e.Err == "" {
-				if e.Alpha {
-					aT = true
-				} else {
-					bT = true
-				}
-			}
-		}
-		if !aT {
-			aTrans = nil
-		}
-		if !bT {
-			bTrans = nil
-		}
-		r.Eval(1)
-		judge := func(list string, all []string, listed []string, excluded uint64, max int) {
-			sorted := append([]string(nil), all...)
-			sort.Slice(sorted, func(i, j int) bool { return refLess(sorted[i], sorted[j]) })
-			wantListed, wantExcluded := sorted, 0
-			if len(sorted) > max {
-				wantListed, wantExcluded = sorted[:max], len(sorted)-max
-			}
-			w := map[string]any{"list": list, "all_sorted": sorted, "listed": listed, "excluded": excluded, "documented_maximum": max}
-			sig := func(check string) map[string]string {
-				return map[string]string{"part": "lists", "list": list, "check": check}
-			}
-			sameSet := len(listed)+int(excluded) == len(sorted)
-			if !sameSet {
-				r.Violation(sig("count"), fmt.Sprintf("%s: %d listed + %d excluded != %d entries reported by the endpoints", list, len(listed), excluded, len(sorted)), w)
-			} else if len(listed) != len(wantListed) || int(excluded) != wantExcluded {
-				r.Violation(sig("truncation"), fmt.Sprintf("%s: %d listed / %d excluded, documented maximum %d wants %d / %d", list, len(listed), excluded, max, len(wantListed), wantExcluded), w)
-			} else if strings.Join(listed, "\x00") != strings.Join(wantListed, "\x00") {
-				inOrder := true
-				for i := 1; i < len(listed); i++ {
-					if !refLess(listed[i-1], listed[i]) {
-						inOrder = false
-					}
-				}
-				if !inOrder {
-					r.Violation(sig("order"), list+": not in depth-first path order", w)
-				} else {
-					r.Violation(sig("wrong-entries"), list+": the listed entries are not the first entries in depth-first order", w)
-				}
-			}
-			r.Distinct(fmt.Sprintf("list|%s|%d|%v", list, len(listed), excluded > 0))
-			if excluded > 0 {
-				r.Count("truncated_lists", 1)
-			}
-		}
-		var cPaths []string
-		for _, c := range st.Conflicts {
-			cPaths = append(cPaths, c.Root)
-		}
-		pp := func(ps []*core.Problem) []string {
-			var out []string
-			for _, q := range ps {
-				out = append(out, q.Path)
-			}
-			return out
-		}
-		judge("conflicts", conflicts, cPaths, st.ExcludedConflicts, maxListConflicts)
-		judge("alpha-scan-problems", aScan, pp(st.AlphaState.ScanProblems), st.AlphaState.ExcludedScanProblems, maxListScanProblems)
-		judge("beta-scan-problems", bScan, pp(st.BetaState.ScanProblems), st.BetaState.ExcludedScanProblems, maxListScanProblems)
-		judge("alpha-transition-problems", aTrans, pp(st.AlphaState.TransitionProblems), st.AlphaState.ExcludedTransitionProblems, maxListTransitionProblems)
-		judge("beta-transition-problems", bTrans, pp(st.BetaState.TransitionProblems), st.BetaState.ExcludedTransitionProblems, maxListTransitionProblems)
-		if round < 2 {
-			r.Sample(map[string]any{"conflicts_listed": cPaths, "excluded_conflicts": st.ExcludedConflicts, "conflicts_total": len(conflicts)})
-		}
 	}
 }
 
@@ -661,6 +709,7 @@ func c40() {
 		"manager.go: ExcludedConflicts off by one -> count",
 		"manager.go: specification matches a name prefix -> wrong-set, miss-not-reported",
 		"fastpath.go: exhausted first path no longer sorts first -> agreement-with-component-wise-reference, totality, negative-transitivity, sort-equals-depth-first-walk",
+		"controller.go: currentState hands out the live state, so List truncates it in place -> count with repeated_listing=true (254 violations: stale Excluded* after a cycle recorded a list at or below the maximum)",
 		"not caught because equivalent: 'len > maximum' changed to 'len >= maximum' (same list, Excluded 0)",
 	})
 	if r.Counter("truncated_lists") == 0 || r.Counter("listings_with_two_or_more_states") == 0 {
